@@ -564,6 +564,7 @@ void exec_plan(const std::string &text, bool verbose) {
         for (auto &e : w.fds)
             if (e.node == rs.listener && (e.kind == FdEnt::PACKET || e.kind == FdEnt::UDP) && !e.rxq.empty() && p.scen != "crfT")
                 violation("probe-lost:unread", strf("%zu datagrams still unread at the end of the run", e.rxq.size()));
+        if (rs.effects_after_quiet < rs.probe_cargo) w.counters["probe_effect_deficit"] = rs.probe_cargo - rs.effects_after_quiet;
         if (rs.effects_after_quiet < rs.probe_cargo)
             violation("probe-lost:effect", strf("after the faults stopped the listener received %llu well-formed datagrams that should have produced %llu outputs, but produced %llu",
                                                 (unsigned long long)rs.probes_recv, (unsigned long long)rs.probe_cargo, (unsigned long long)rs.effects_after_quiet));
@@ -580,6 +581,29 @@ void exec_plan(const std::string &text, bool verbose) {
 }
 
 // ---------------------------------------------------------------- crash classification (parent side)
+// A missing probe effect only counts if the fault-free twin of the same plan (same workload, schedule seed and
+// configuration, every fault operation removed) does produce it: a listener that is merely strict about what it
+// accepts from its own talker is not "unable to process the next datagram".
+void confirm_violation(sim::Engine &e, const std::string &plan, sim::RunResult &r) {
+    const std::string tail = ":probe-lost:effect";
+    if (r.sig.size() < tail.size() || r.sig.compare(r.sig.size() - tail.size(), tail.size(), tail) != 0) return;
+    std::string twin;
+    for (auto &l : sim::split_lines(plan)) {
+        if (l.compare(0, 3, "mut") == 0 || l.compare(0, 3, "inj") == 0 || l.compare(0, 5, "stall") == 0) continue;
+        twin += l;
+        twin += '\n';
+    }
+    sim::RunResult t = sim::run_plan_in_child(e, twin, false);
+    uint64_t d1 = r.counters.count("probe_effect_deficit") ? r.counters["probe_effect_deficit"] : 0;
+    uint64_t d2 = t.counters.count("probe_effect_deficit") ? t.counters["probe_effect_deficit"] : 0;
+    if (t.status == 1 && t.sig == r.sig && d2 >= d1) {
+        r.status = 0;
+        r.sig.clear();
+        r.detail.clear();
+        r.counters["probe.effect_deficit_also_without_faults"] = 1;
+    }
+}
+
 sim::RunResult classify_crash(const sim::CrashInfo &ci) {
     sim::RunResult r;
     // context = prop|scen|mode
